@@ -61,6 +61,9 @@ pub mod c09;
 pub mod c10;
 pub mod c11;
 pub mod c13;
+pub mod c14;
+pub mod c15;
+pub mod c16;
 pub mod c17;
 pub mod c19;
 pub mod c20;
@@ -72,7 +75,7 @@ pub mod c35;
 pub mod c36;
 
 pub fn all() -> Vec<Prop> {
-    vec![c01::prop(), c02::prop(), c03::prop(), c04::prop(), c05::prop(), c06::prop(), c07::prop(), c08::prop(), c09::prop(), c10::prop(), c11::prop11(), c11::prop12(), c13::prop(), c17::prop17(), c17::prop18(), c19::prop(), c20::prop20(), c21::prop(), c20::prop22(), c23::prop23(), c23::prop24(), c25::prop(), c26::prop(), c35::prop(), c36::prop()]
+    vec![c01::prop(), c02::prop(), c03::prop(), c04::prop(), c05::prop(), c06::prop(), c07::prop(), c08::prop(), c09::prop(), c10::prop(), c11::prop11(), c11::prop12(), c13::prop(), c14::prop(), c15::prop(), c16::prop(), c17::prop17(), c17::prop18(), c19::prop(), c20::prop20(), c21::prop(), c20::prop22(), c23::prop23(), c23::prop24(), c25::prop(), c26::prop(), c35::prop(), c36::prop()]
 }
 pub fn find(id: &str) -> Option<Prop> { all().into_iter().find(|p| p.id == id) }
 
@@ -81,4 +84,4 @@ pub fn not_claimed(_id: &str) -> String {
     "not claimed yet: the monitor for this property is still being built (runtime monitoring does apply to it; see DESIGN.md section 4)".to_string()
 }
 /// Commits in /repo that add guarded hooks.
-pub fn hook_commits() -> Vec<String> { vec![] }
+pub fn hook_commits() -> Vec<String> { vec!["ed27ce7".to_string()] }
